@@ -16,7 +16,7 @@ func init() {
 		ID:          "C02",
 		Title:       "Sort order, skip, limit and total count are exact",
 		Technique:   "static analysis: sentinel/overflow rule for every arithmetic on paging values, path rule for the paging defaults (set-on-nil/negative edge), control-dependence rule for the total count, exhaustive decision tables of the five row comparators (abstract interpretation over nil/ordering/direction), listener pop-order rule; role-based rule for the counting scan's step; decode width/sign rule for sort keys",
-		LevelText:   "Necessary conditions visible in the code's shape, decided for all inputs: paging arithmetic can neither overflow on the MaxInt64 'unbounded' sentinel nor see a negative skip; absent/negative skip and limit are replaced by 0 / unbounded before use on every path; the running total is incremented under the row-match condition only, never under a paging comparison, and the counting loop uses the unpaged step; each comparator returns nil-first, sign-of-ordering, negated iff descending for all 24 abstract cases; the comparator list always ends with id ascending; the query listener pops limit, skip, sort, predicate in that order and accepts only integer constants for skip/limit. Not decided: that llrb orders correctly and that the two scan strategies agree on real data. The step that advances the cursor inside the counting loop reads no paging value (found by role, not by name); the paging counters advance only for rows that matched; fixed-width sort keys are decoded with their stored width and sign. Added later: a typed query object is never kept in a package-level cache and mutated per call (FRESHQUERY); the compound comparator is decided by running it over given answers of three field comparators (first non-zero in order, zero when all tie), whatever loop form it has; the NONE marker is what VisitTerminal pushes for the NONE token. Added in rounds 8-9: the comparator is built from the query's whole sort list (SORTWHOLE); an object cached in a sync.Map of a store is built only from inputs that are part of its key (CACHEKEY); a package-level instance of a mutable type is followed through joins (FRESHQUERY). Added in round 10: the comparator picked for a symbol type reads its values with that type's decoder (CMPTYPE); every field comparator built has its direction stored from a value (CMPDIR). Added in round 11: the scanner is chosen by the query's own sort fields (SCANSORT); the union cursor's decision table is cross-listed (UNION). Added in round 12: the id scan's cursor provider looks at the direction it is asked for (CURSORDIR/DIRPARAM, function literals included).",
+		LevelText:   "Necessary conditions visible in the code's shape, decided for all inputs: paging arithmetic can neither overflow on the MaxInt64 'unbounded' sentinel nor see a negative skip; absent/negative skip and limit are replaced by 0 / unbounded before use on every path; the running total is incremented under the row-match condition only, never under a paging comparison, and the counting loop uses the unpaged step; each comparator returns nil-first, sign-of-ordering, negated iff descending for all 24 abstract cases; the comparator list always ends with id ascending; the query listener pops limit, skip, sort, predicate in that order and accepts only integer constants for skip/limit. Not decided: that llrb orders correctly and that the two scan strategies agree on real data. The step that advances the cursor inside the counting loop reads no paging value (found by role, not by name); the paging counters advance only for rows that matched; fixed-width sort keys are decoded with their stored width and sign. Added later: a typed query object is never kept in a package-level cache and mutated per call (FRESHQUERY); the compound comparator is decided by running it over given answers of three field comparators (first non-zero in order, zero when all tie), whatever loop form it has; the NONE marker is what VisitTerminal pushes for the NONE token. Added in rounds 8-9: the comparator is built from the query's whole sort list (SORTWHOLE); an object cached in a sync.Map of a store is built only from inputs that are part of its key (CACHEKEY); a package-level instance of a mutable type is followed through joins (FRESHQUERY). Added in round 10: the comparator picked for a symbol type reads its values with that type's decoder (CMPTYPE); every field comparator built has its direction stored from a value (CMPDIR). Added in round 11: the scanner is chosen by the query's own sort fields (SCANSORT); the union cursor's decision table is cross-listed (UNION). Added in round 12: the id scan's cursor provider looks at the direction it is asked for (CURSORDIR/DIRPARAM, function literals included). Added in round 13: SCANFILTER as in C15 (paging counts the right rows); every cursor a direction-taking function hands out was made by a call told the direction or on a path that branched on it (DIRPARAM per return).",
 		LevelNote:   "Trusted: go/types, x/tools SSA, llrb ordering, the DECIDE interpreter in checker/decide.go (rejects anything it cannot evaluate).",
 		DesignRef:   "DESIGN.md C02",
 		Explanation: "Sites: every ADD/SUB/MUL with a targetLimit/targetOffset operand; every store to a count field in the scan functions; both paging normalisations (wherever they are expanded); the five Compare methods; newRowComparator; ExitSkipExpr/ExitLimitExpr/ExitQueryStmt.",
